@@ -229,7 +229,7 @@ pub fn main(args: &Args) -> i32 {
     let rule = match prop {
         "C01" => "proptest definitions (6 families: str/bytes x ascii/unicode x look-around) x inputs = joint (graph x reference) transition cover + graph random walks + noise; evaluation = one (definition,input) lexing compared per attempt with the reference lexer; non-trivial = distinct (definition,input,attempt) where >=2 patterns have a non-empty match, or the winner has several match ends, or text beyond the match end was still viable",
         "C02" => "same generator as C01; non-trivial = distinct (definition,input,attempt) error attempts whose span is >1 byte, or ends by char-boundary rounding, or ends at end of input",
-        _ => "same generator as C01 plus the empty input; non-trivial = distinct (definition,input) where the input is empty, ends in a skipped region or ends in an error/mid-token; every accepted definition is also checked for the structural invariants (root records nothing, no eoi edge after an eoi edge, edge targets exist)",
+        _ => "(empty-match clause) proptest patterns generated without the non-nullable fix-up, placed alone / next to a token / as a skip: if the pattern's reference DFA reports an empty match at the start of one of 6 context strings the definition must be rejected; (runtime and structural clauses) same generator as C01 plus the empty input; non-trivial = distinct (definition,input) where the input is empty, ends in a skipped region or ends in an error/mid-token; every accepted definition is also checked for the structural invariants (root records nothing, no eoi edge after an eoi edge, edge targets exist)",
     };
     let mut run = Run::new(prop, &args.tier, args.seed, rule);
     run.assumptions = vec![
@@ -273,8 +273,84 @@ pub fn main(args: &Args) -> i32 {
             2
         }
     };
+    let code = if code == 0 && prop == "C03" { empty_match_part(args, &mut run) } else { code };
     run.write_evidence(&args.evidence);
     code
+}
+
+/// C03, empty-match clause: patterns generated without the non-nullable fix-up (about a third can match
+/// the empty string in some context: a*, a|, (a?)(b?), x*$, (?-u:\b) ...). Oracle: the reference DFA of
+/// the pattern reports an empty match at the start of some context string; any definition
+/// containing such a pattern must not be accepted.
+fn empty_match_part(args: &Args, run: &mut Run) -> i32 {
+    use model::gen::{ast_strategy, GenCfg};
+    use model::prep::derive_def;
+    use model::reference::{Matcher, RefDfa};
+    use model::spec::{LitSpec, PatSpec};
+    let cfgs = [
+        GenCfg { utf8: false, unicode: true, looks: true, byte_items: true, flags: true, max_depth: 3 },
+        GenCfg { utf8: true, unicode: true, looks: true, byte_items: false, flags: true, max_depth: 3 },
+        GenCfg { utf8: true, unicode: false, looks: false, byte_items: false, flags: false, max_depth: 2 },
+    ];
+    let strat = (
+        prop_oneof![ast_strategy(&cfgs[0]).prop_map(|a| (a, false)), ast_strategy(&cfgs[1]).prop_map(|a| (a, true)), ast_strategy(&cfgs[2]).prop_map(|a| (a, true))],
+        any::<u8>(),
+    );
+    let cases = if args.cases > 0 { args.cases } else if args.thorough() { 40000 } else { 3000 };
+    run.frozen = false;
+    let contexts: [&[u8]; 6] = [b"", b"a", b" ", b"\n", b"0", "é".as_bytes()];
+    let check = |case: &((model::gen::Ast, bool), u8), run: &mut Run| -> Result<(), String> {
+        let ((ast, utf8), shape) = case;
+        let text = ast.text();
+        let Ok(dfa) = RefDfa::new(&text, true, false) else { return Ok(()) };
+        let m = Matcher::Dfa(Box::new(dfa));
+        let empty_in = contexts.iter().find(|c| m.run(c, 0).empty).map(|c| c.to_vec());
+        let mut p = PatSpec::regex(LitSpec::str(text.clone()));
+        p.allow_greedy = true;
+        // as the only pattern, next to an unrelated token, or as a skip
+        let def = match shape % 3 {
+            0 => DefSpec { utf8: *utf8, subpatterns: vec![], skips: vec![], variants: vec![vec![p]] },
+            1 => DefSpec { utf8: *utf8, subpatterns: vec![], skips: vec![], variants: vec![vec![PatSpec::token(LitSpec::str("\u{3}\u{3}"))], vec![p]] },
+            _ => DefSpec { utf8: *utf8, subpatterns: vec![], skips: vec![p], variants: vec![vec![PatSpec::token(LitSpec::str("\u{3}\u{3}"))]] },
+        };
+        let d = derive_def(&def);
+        run.eval(1);
+        if d.panic.is_some() {
+            return Ok(());
+        }
+        if let Some(ctx) = empty_in {
+            run.count("patterns_matching_empty", 1);
+            run.nontrivial(fnv(d.rust.as_bytes()));
+            if d.errors.is_empty() {
+                return Err(format!("the pattern {text:?} matches the empty string (at the start of {}), but the definition is accepted", show(&ctx)));
+            }
+        } else {
+            run.count("patterns_not_matching_empty", 1);
+        }
+        Ok(())
+    };
+    match drive(&strat, cases, args.seed ^ 0xC03E, 600, run, |c, run| check(c, run)) {
+        DriveResult::Pass => 0,
+        DriveResult::Fail(case) => {
+            let mut scratch = Run::new("C03", "quick", 0, "");
+            let msg = check(&case, &mut scratch).err().unwrap_or_default();
+            let ((ast, utf8), shape) = &case;
+            let mut p = PatSpec::regex(LitSpec::str(ast.text()));
+            p.allow_greedy = true;
+            let def = match shape % 3 {
+                0 => DefSpec { utf8: *utf8, subpatterns: vec![], skips: vec![], variants: vec![vec![p]] },
+                1 => DefSpec { utf8: *utf8, subpatterns: vec![], skips: vec![], variants: vec![vec![PatSpec::token(LitSpec::str("\u{3}\u{3}"))], vec![p]] },
+                _ => DefSpec { utf8: *utf8, subpatterns: vec![], skips: vec![p], variants: vec![vec![PatSpec::token(LitSpec::str("\u{3}\u{3}"))]] },
+            };
+            run.violations = 1;
+            report_violation("C03", &args.replay_dir, &json!({"property": "C03", "tier": "G", "empty_match": true, "def": def, "rendered_rust": model::prep::render(&def), "input_hex": "", "findings": [{"property": "C03", "what": msg}]}));
+            1
+        }
+        DriveResult::Abort(m) => {
+            eprintln!("aborted: {m}");
+            2
+        }
+    }
 }
 
 fn shrink_input(prop: &str, def: &DefSpec, input: &[u8]) -> Vec<u8> {
@@ -318,6 +394,17 @@ pub fn replay(prop: &str, path: &std::path::Path) -> i32 {
     let v: Value = serde_json::from_str(&std::fs::read_to_string(path).expect("read replay")).expect("replay json");
     let def: DefSpec = serde_json::from_value(v["def"].clone()).expect("def");
     let input = unhex(v["input_hex"].as_str().unwrap_or(""));
+    if v.get("empty_match").is_some() {
+        let d = model::prep::derive_def(&def);
+        return if d.errors.is_empty() && d.panic.is_none() {
+            println!("replay: definition with an empty-matching pattern is accepted");
+            println!("VIOLATION property={prop} replay={}", path.display());
+            1
+        } else {
+            println!("replay: no violation of {prop}");
+            0
+        };
+    }
     match prepare(&def) {
         Ok(p) => {
             let mut f = findings_for(prop, &p, &def, &input, None, 0);
